@@ -34,43 +34,19 @@ Theorem C03_extract_confined_chain_refuted :
 Proof. exact extract_confined_chain_refuted. Qed.
 Print Assumptions C03_extract_confined_chain_refuted.
 
-(* witness 2, destination None: the member name ".//jail/out/x" is checked as cwd/jail/out/x but returned as the
-   absolute path /jail/out/x *)
-Theorem C03_extract_confined_none_absolute_refuted :
-  dest_ok w_d None w_d /\
-  s_eff (final_state (extract_fs w_fs w_d None w_absname 0)) =
-    [(KChmod, [w_jail; w_out; [120]]); (KUtime, [w_jail; w_out; [120]]); (KCreate, [w_jail; w_out; [120]])] /\
-  ~ effs_under w_d (s_eff (final_state (extract_fs w_fs w_d None w_absname 0))).
-Proof. exact extract_confined_none_absolute_refuted. Qed.
-Print Assumptions C03_extract_confined_none_absolute_refuted.
-
-Theorem C03_sanitized_none_refuted :
-  get_sanitized_output_path ([46; 47; 47] ++ w_jail ++ [47] ++ w_out ++ [47; 120]) w_d None
-    = Some (mkP 1 [w_jail; w_out; [120]]).
-Proof. exact sanitized_none_refuted. Qed.
-Print Assumptions C03_sanitized_none_refuted.
-
-(* witness 3, destination None: "../zz/../dest/x" is lexically inside; mkdir(parents=True) creates ../zz *)
-Theorem C03_extract_confined_none_climb_refuted :
-  dest_ok w_d None w_d /\
-  In (KMkdir, [w_jail; [122; 122]]) (s_eff (final_state (extract_fs w_fs w_d None w_climb 0))) /\
-  ~ effs_under w_d (s_eff (final_state (extract_fs w_fs w_d None w_climb 0))).
-Proof. exact extract_confined_none_climb_refuted. Qed.
-Print Assumptions C03_extract_confined_none_climb_refuted.
-
 (* ---- what does hold.  Main theorem: the destination d is an existing real directory (every prefix of d is a
-   directory: no link on the way) given as a canonical absolute path, as a path relative to cwd, or as None with
-   names that are relative and free of ".."; every symbolic link already below d and every symbolic-link member
-   has a relative target without "..".  Then, whether extraction completes or raises, every effect lies below d,
+   directory: no link on the way) given as a canonical absolute path, as a path relative to cwd, or as None (the
+   current directory); every symbolic link already below d and every symbolic-link member has a relative target
+   without "..".  No condition on member names: the sanitiser takes care of them, for destination None as well.  Then, whether extraction completes or raises, every effect lies below d,
    and the same conditions hold of the final filesystem. *)
 Theorem C03_extract_confined_general : forall f cwd dest es mode d,
   dest_ok cwd dest d -> nodd d -> real_dir f d -> links_safe f d ->
-  Forall entry_ok es -> names_ok dest es ->
+  Forall entry_ok es ->
   let s := final_state (extract_fs f cwd dest es mode) in
   effs_under d (s_eff s) /\ real_dir (s_fs s) d /\ links_safe (s_fs s) d.
 Proof.
-  intros f cwd dest es mode d H1 H2 H3 H4 H5 H6 s.
-  destruct (extract_confined_general f cwd dest es mode d H1 H2 H3 H4 H5 H6) as [A [B C]]. auto.
+  intros f cwd dest es mode d H1 H2 H3 H4 H5 s.
+  destruct (extract_confined_general f cwd dest es mode d H1 H2 H3 H4 H5) as [A [B C]]. auto.
 Qed.
 Print Assumptions C03_extract_confined_general.
 
@@ -81,6 +57,28 @@ Theorem C03_extract_confined_partial : forall f cwd p0 es mode d,
   effs_under d (s_eff (final_state (extract_fs f cwd (Some p0) es mode))).
 Proof. exact extract_confined_nolinks. Qed.
 Print Assumptions C03_extract_confined_partial.
+
+(* destination None = the current directory (formerly refuted by the names ".//abs/x" and "../zz/../dest/x";
+   repaired in get_sanitized_output_path, which now returns the path it checked) *)
+Theorem C03_extract_confined_none : forall f cwd es mode,
+  nodd cwd -> real_dir f cwd -> links_safe f cwd -> Forall entry_ok es ->
+  effs_under cwd (s_eff (final_state (extract_fs f cwd None es mode))).
+Proof. exact extract_confined_none. Qed.
+Print Assumptions C03_extract_confined_none.
+
+Theorem C03_sanitized_none_inside : forall nm cwd0 o, nodd cwd0 ->
+  get_sanitized_output_path nm cwd0 None = Some o -> proot o = 0 /\ nodd (pparts o).
+Proof. exact sanitized_none_inside. Qed.
+Print Assumptions C03_sanitized_none_inside.
+
+(* the former witnesses *)
+Example C03_none_absolute_name_refused : extract_fs w_fs w_d None w_absname 0 = Exc XBad7z (mkSt w_fs []).
+Proof. exact none_absolute_name_refused. Qed.
+Example C03_none_climb_confined :
+  get_sanitized_output_path ([46; 46; 47; 122; 122; 47; 46; 46; 47] ++ w_dest ++ [47; 120]) w_d None = Some (mkP 0 [[120]]) /\
+  s_eff (final_state (extract_fs w_fs w_d None w_climb 0)) =
+    [(KChmod, [w_jail; w_dest; [120]]); (KUtime, [w_jail; w_dest; [120]]); (KCreate, [w_jail; w_dest; [120]])].
+Proof. exact none_climb_confined. Qed.
 
 (* the sanitiser: with a destination, every accepted name is lexically below it *)
 Theorem C03_sanitized_lexically_inside : forall nm cwd0 b o,
@@ -110,12 +108,13 @@ Print Assumptions C03_walk_inside.
 (* hypotheses of the theorems are met by concrete non-trivial states *)
 Example C03_general_hyps_satisfiable :
   dest_ok [w_jail] (Some (mkP 0 [w_dest])) w_d /\ nodd w_d /\ real_dir x_fs w_d /\ links_safe x_fs w_d /\
-  Forall entry_ok (firstn 5 x_es) /\ names_ok (Some (mkP 0 [w_dest])) (firstn 5 x_es) /\
+  Forall entry_ok (firstn 5 x_es) /\
   length (s_eff (final_state (extract_fs x_fs [w_jail] (Some (mkP 0 [w_dest])) (firstn 5 x_es) 0))) = 13%nat /\
   extract_fs x_fs [w_jail] (Some (mkP 0 [w_dest])) x_es 0 = Exc XBad7z (mkSt x_fs []).
 Proof. exact general_hyps_satisfiable. Qed.
 
 Example C03_none_hyps_satisfiable :
-  dest_ok w_d None w_d /\ names_ok None [w_file [97; 47; 102]; w_file [46; 47; 98]] /\
-  length (s_eff (final_state (extract_fs w_fs w_d None [w_file [97; 47; 102]; w_file [46; 47; 98]] 0))) = 7%nat.
+  dest_ok w_d None w_d /\ nodd w_d /\ real_dir w_fs w_d /\ links_safe w_fs w_d /\
+  Forall entry_ok [w_file [97; 47; 102]; w_file [46; 47; 98]; w_file [97; 47; 102]] /\
+  length (s_eff (final_state (extract_fs w_fs w_d None [w_file [97; 47; 102]; w_file [46; 47; 98]; w_file [97; 47; 102]] 0))) = 10%nat.
 Proof. exact none_hyps_satisfiable. Qed.
